@@ -183,13 +183,21 @@ INLINE_NAMES = [
 
 
 def odd_length_target(text):
-    """does a @lengthOf of this text (default layout) aim at something other than one packet-typed / inline / match member?"""
+    """does a @lengthOf of this text (default layout) aim at something other than one packet-typed / inline / match member
+    of ITS packet?"""
     m = re.search(r"@lengthOf\((\w+)\)", text)
     if not m:
         return False
     t = m.group(1)
     pk = set(re.findall(r"^(?:root )?packet (\w+)", text, re.M))
-    for l in text.split("\n"):
+    # the top-level packet that holds the attribute
+    start = text.rfind("\npacket ", 0, m.start())
+    start = max(start, text.rfind("\nroot packet ", 0, m.start()), 0 if text.startswith(("packet ", "root packet ")) else -1)
+    end = text.find("\n}\n", m.start())
+    body = text[max(start, 0):end if end >= 0 else len(text)]
+    for l in body.split("\n"):
+        if not l.startswith("    ") or l.startswith("     "):
+            continue          # members of the packet itself only (inline members are indented further)
         l = l.strip()
         if re.match(r"match \w+ as %s \{" % t, l) or re.match(r"%s \{" % t, l):
             return False
@@ -232,6 +240,10 @@ def run_c07(ctx):
             prof = "safe"
         items.append((prof, t))
     items += [("safe", t) for t in pipeline.corpus_texts()]
+    # `char` scalars and lists of them under either byte order (Rust and Java serve them; their absence from the Go / Python /
+    # C++ tables is the known finding char-scalar-unsupported)
+    items += [("char", _OPTS.replace("options {", "options {\n    LittleEndian = %s;" % le) +
+               "root packet Quote {\n    u32 SeqNo,\n    char Side,\n    repeat char Flags,\n    string Note,\n}\n") for le in ("true", "false")]
     items += [("inl", t) for t in INLINE_NAMES]
     items += [("len", LEN_TARGET % decl) for decl in ("string Body", "u32 Body", "char[4] Body", "repeat u16 Body", "repeat Leg Body", "repeat string Body")]
     texts = [t for _, t in items]
@@ -481,6 +493,21 @@ def run_c08(ctx):
         b = dslgen.render(q)
         if b != a:
             pairs.append(("combined", a, textgen.relayout(b, rng, comments=0.1)))
+    # one fixed string, every way of writing it: zchar[n] / char[n] with explicit NUL right padding / through a MetaData entry /
+    # through a reference to such an entry / attribute on a MetaData-typed field; plain and repeated, both byte orders
+    for le in ("true", "false"):
+        for rep in ("", "repeat "):
+            def prog(meta, field):
+                return ("options {\n    LittleEndian = %s;\n}\n\n%sroot packet Quote {\n    u32 SeqNo,\n    %s\n    u16 Tail,\n}\n" % (le, meta, field))
+            forms = [("inline-zchar", "", "%szchar[8] Sym," % rep),
+                     ("explicit-nul", "", "@rightPad('\\x00')\n    %schar[8] Sym," % rep),
+                     ("meta-zchar", "MetaData M {\n    zchar[8] Sym `s`,\n}\n\n", "%sSym," % rep),
+                     ("meta-zchar-named", "MetaData M {\n    zchar[8] Zs `z`,\n}\n\n", "%sZs Sym," % rep),
+                     ("meta-reference", "MetaData M {\n    zchar[8] Zs `z`,\n    Zs Sym `s`,\n}\n\n", "%sSym," % rep),
+                     ("meta-char-attr", "MetaData M {\n    char[8] Sym `s`,\n}\n\n", "@rightPad('\\x00')\n    %sSym," % rep)]
+            base = prog(forms[0][1], forms[0][2])
+            for name, meta, field in forms[1:]:
+                pairs.append(("fixed-string-spelling/" + name, base, prog(meta, field)))
     ALL = pipeline.ALL_TARGETS
     ra = harness.run_ops([{"op": "gen", "text": a, "order": ALL, "fresh": True} for _, a, _ in pairs])
     rb = harness.run_ops([{"op": "gen", "text": b, "order": ALL, "fresh": True} for _, _, b in pairs])
